@@ -86,6 +86,9 @@ OUTSIDE = [
     "real io.BytesIO / tempfile / OS behaviour (stubbed); memory used by the Python objects themselves",
 ]
 BUDGET_S = {"quick": 230, "thorough": 1150}
+# part of the check again with ombott compiled as `python -O` runs it (assert statements removed): a size limit must not
+# be an assertion
+ALSO_BUILDS = {"O": "cl/int/limited/*|chunked/int/limited/*"}
 
 stubs_c13.install_size_io()
 M = 2 ** 20
